@@ -122,6 +122,10 @@ type obsOperand struct {
 	Class string // col: column class
 }
 
+// right sides left to the thorough tier in the bounded parts of the quick enumeration
+var obsRightThoroughOnly = map[string]bool{"string-with-quote": true, "negative-integer": true, "function-of-string": true, "sum": true,
+	"sub-select": true, "same-column": true, "double-quoted": true, "cast-placeholder": true, "other-table-acrastruct-column": true}
+
 func colOperand(name, text, key, table, col string) obsOperand {
 	return obsOperand{Name: name, Text: text, Kind: "col", Key: key, Class: obsClassOf(table, col)}
 }
@@ -255,6 +259,7 @@ func obsOps() []obsOp {
 		{"in", "%L in (%R)", false}, {"in-two", "%L in (%R, 'zz')", false}, {"not-in", "%L not in (%R)", false},
 		{"eq-any", "%L = any (array[%R])", false},
 		{"between", "%L between %R and 'zz'", false}, {"not-between", "%L not between %R and 'zz'", false},
+		{"nullif", "nullif(%L, %R) is null", false},
 		{"is-null", "%L is null", true}, {"is-not-null", "%L is not null", true},
 	}
 }
@@ -537,7 +542,7 @@ func obsAssignStatements(s obsSpell, thorough bool) []obsAssign {
 						if ctext == "" {
 							sql = ft.Head + " t1 values " + rows + tail
 						}
-						d := &obsDesc{StmtKind: "insert-values-" + rk, Feature: ft.Name + "/" + cl.Name, Left: tgt, Right: v.Name, LClass: obsClassOf("t1", tgt), RClass: "value"}
+						d := &obsDesc{StmtKind: "insert-values-" + rk, Feature: ft.Name, From: cl.Name, Left: tgt, Right: v.Name, LClass: obsClassOf("t1", tgt), RClass: "value"}
 						for _, c := range order {
 							d.ProtPos = append(d.ProtPos, isProt(c))
 						}
@@ -612,15 +617,18 @@ type obsCmpSpace struct {
 	spell obsSpell
 }
 
-// reps: the representative (left, right) pairs used where the product is bounded.
-var obsRepLeft = map[bool][]string{
-	false: {"searchable-acrablock", "tokenized", "encrypted", "plain"},
-	true:  {"t1-searchable-acrablock", "t1-tokenized", "t1-plain", "t2-shared-name-plain"},
+// obsRepPairs: the representative (left, right) pairs used where the product is bounded.
+var obsRepPairs = map[bool][][2]string{
+	false: {{"searchable-acrablock", "string"}, {"searchable-acrablock", "placeholder"}, {"searchable-acrablock", "other-searchable-column"},
+		{"searchable-acrablock", "plain-column"}, {"tokenized", "string"}, {"plain", "string"}},
+	true: {{"t1-searchable-acrablock", "string"}, {"t1-searchable-acrablock", "placeholder"}, {"t1-searchable-acrablock", "other-table-searchable-column"},
+		{"t1-searchable-acrablock", "other-table-plain-column"}, {"t1-tokenized", "string"}, {"t2-shared-name-plain", "string"}},
 }
 var obsRepRight = map[bool][]string{
 	false: {"string", "placeholder", "other-searchable-column", "plain-column"},
 	true:  {"string", "placeholder", "other-table-searchable-column", "other-table-plain-column"},
 }
+var obsRepOps = []string{"eq", "ne", "lt", "like", "in", "is-null"}
 
 func inList(l []string, x string) bool {
 	for _, y := range l {
@@ -631,21 +639,32 @@ func inList(l []string, x string) bool {
 	return false
 }
 
-// enumerate calls emit for every comparison statement of the tier's space. The rule (also
-// written to the evidence by main.go):
-//
-//	A. every statement kind x every FROM variant x every left side x every operator x every
-//	   right side, context "alone"                                   (quick: FROM variants other
-//	   than "plain" only with the representative right sides)
-//	B. every statement kind x FROM "plain" x representative (left, right) pairs x every
-//	   operator x every context
-//	C. every statement kind x FROM "plain" x every left x every right x operators {=, <, like}
-//	   x contexts {operands-exchanged, in-sub-select, not}
-//	thorough: the full product kind x FROM x left x operator x right x context.
-func (sp *obsCmpSpace) enumerate(thorough bool, emit func(sql string, d *obsDesc)) {
+func isRepPair(join bool, l, r string) bool {
+	for _, p := range obsRepPairs[join] {
+		if p[0] == l && p[1] == r {
+			return true
+		}
+	}
+	return false
+}
+
+const obsRuleQuick = "A: every statement kind x FROM 'plain' x every left side x every operator x every right side (less the rarer spellings: " +
+	"quote inside, negative integer, function call, sum, sub-select, same column, double-quoted, cast placeholder), context 'alone'; " +
+	"A2: every kind x every other FROM variant x every left side x operators {=, !=, <, like, in, is null} x right sides {string, placeholder, other searchable column, plain column}, context 'alone'; " +
+	"B: every kind x FROM 'plain' x 6 representative (left, right) pairs (searchable/string, searchable/placeholder, searchable/searchable column, searchable/plain column, tokenized/string, plain/string) x every operator x every context; " +
+	"C: every kind x FROM 'plain' x every left x every right (as in A) x operators {=, <, like} x contexts {operands exchanged, in sub-select}"
+const obsRuleThorough = "A: every statement kind x every FROM variant x every left side x every operator x every right side, context 'alone'; " +
+	"B: every kind x FROM 'plain' x every left side x every operator x every right side x every context (the full product for FROM 'plain'); " +
+	"B2: every kind x every other FROM variant x 6 representative (left, right) pairs x every operator x every context"
+
+// enumerateOp calls emit for every comparison statement of the tier's space that uses
+// operator op (the rules above go to the evidence). The phase evaluates operator after
+// operator in the order of obsOps (the equality family first), so a wall-budget cap leaves
+// the space complete for the operators before the cut.
+func (sp *obsCmpSpace) enumerateOp(thorough bool, op obsOp, emit func(sql string, d *obsDesc)) {
 	s := sp.spell
 	seen := map[string]bool{}
-	put := func(k obsKind, f obsFrom, l, r obsOperand, op obsOp, cx obsCtx) {
+	put := func(k obsKind, f obsFrom, l, r obsOperand, cx obsCtx) {
 		if op.Unary && r.Name != "string" {
 			return
 		}
@@ -656,39 +675,40 @@ func (sp *obsCmpSpace) enumerate(thorough bool, emit func(sql string, d *obsDesc
 		seen[sql] = true
 		emit(sql, d)
 	}
-	for _, k := range sp.kinds {
-		for _, f := range sp.froms {
-			ls := obsLefts(s, f, k.Join)
-			for _, l := range ls {
-				rs := obsRights(s, f, k.Join, l)
-				for _, op := range sp.ops {
-					for _, r := range rs {
-						if thorough {
-							for _, cx := range sp.ctxs {
-								put(k, f, l, r, op, cx)
-							}
-							continue
-						}
-						repL, repR := inList(obsRepLeft[k.Join], l.Name), inList(obsRepRight[k.Join], r.Name)
-						// A
-						if f.Name == "plain" || repR {
-							put(k, f, l, r, op, sp.ctxs[0])
-						}
-						if f.Name != "plain" {
-							continue
-						}
-						// B
-						if repL && repR {
+	for _, f := range sp.froms {
+		plain := f.Name == "plain"
+		for _, k := range sp.kinds {
+			for _, l := range obsLefts(s, f, k.Join) {
+				for _, r := range obsRights(s, f, k.Join, l) {
+					rep := isRepPair(k.Join, l.Name, r.Name)
+					if thorough {
+						put(k, f, l, r, sp.ctxs[0])
+						if plain || rep {
 							for _, cx := range sp.ctxs[1:] {
-								put(k, f, l, r, op, cx)
+								put(k, f, l, r, cx)
 							}
 						}
-						// C
-						if op.Name == "eq" || op.Name == "lt" || op.Name == "like" {
-							for _, cx := range sp.ctxs {
-								if cx.Name == "operands-exchanged" || cx.Name == "in-sub-select" || cx.Name == "not" {
-									put(k, f, l, r, op, cx)
-								}
+						continue
+					}
+					rare := obsRightThoroughOnly[r.Name]
+					if plain && !rare { // A
+						put(k, f, l, r, sp.ctxs[0])
+					}
+					if !plain && inList(obsRepRight[k.Join], r.Name) && inList(obsRepOps, op.Name) { // A2
+						put(k, f, l, r, sp.ctxs[0])
+					}
+					if !plain {
+						continue
+					}
+					if rep { // B
+						for _, cx := range sp.ctxs[1:] {
+							put(k, f, l, r, cx)
+						}
+					}
+					if !rare && (op.Name == "eq" || op.Name == "lt" || op.Name == "like") { // C
+						for _, cx := range sp.ctxs {
+							if cx.Name == "operands-exchanged" || cx.Name == "in-sub-select" {
+								put(k, f, l, r, cx)
 							}
 						}
 					}
